@@ -513,6 +513,11 @@ def run1 (w : String) : String :=
         | some (v, n) => s!"ok {showVal v} {n}"
         | none => "err")
       | none => "bad")
+  | ["desx", d, auto] => (match hexArg d with
+      | some bs => (match deserializeF boolFlagTable (auto == "1") 0 gfuel bs true none with
+        | some (v, n) => s!"ok {showVal v} {n}"
+        | none => "err")
+      | none => "bad")
   | ["ddes", d, auto] => (match hexArg d with
       | some bs =>
         let a := (deserializeF table (auto == "1") 0 gfuel bs true none).map fun (v, n) => s!"{showVal v} {n}"
@@ -600,6 +605,8 @@ def validation_cases(W=None):
             out.append((f'des:{d.hex() or "-"}:{auto}', lambda d=d, auto=auto: lib_deserialize(W, d, auto), 'des'))
     for d in (b'', b'\x01', b'\x00' * 4, b'\xff' * 8):
         out.append((f'des:{d.hex() or "-"}:1', lambda d=d: lib_deserialize(W, d, 1), 'des'))
+    for d in bool_flag_inputs():
+        out.append((f'desx:{d.hex()}:1', lambda d=d: bool_flag_expected(d).encode(), 'text'))
     seen = set()
     for c in W.ctors:
         for j, a in enumerate(c['args']):
@@ -641,6 +648,34 @@ def validation_cases(W=None):
         out.append((f'beq:{a[0]}:{a[1]}:{a[2]}:{hx(a[3])}:{hx(a[4])}:{b[0]}:{b[1]}:{b[2]}:{hx(b[3])}:{hx(b[4])}',
                     lambda a=a, b=tuple(b): (b'T' if (BlockIdExt(*a) == BlockIdExt(*b)) else b'F'), 'text'))
     return W, out
+
+
+BOOL_FLAG_DECL = 't.x mode:Bool a:mode.0?int b:mode.1?int = T.X;'
+
+
+def bool_flag_inputs():
+    """byte strings for the schema BOOL_FLAG_DECL (Drv/Tl.lean `boolFlagTable`): the flags word is a Bool - True (bit 0 set), False, invalid
+    (left unset: `bin(None)` raises)"""
+    hdr = bytes.fromhex('6acadf25')
+    i4 = lambda n: n.to_bytes(4, 'little', signed=True)
+    return [hdr + bytes.fromhex('b5757299') + i4(7) + i4(9), hdr + bytes.fromhex('b5757299') + i4(-1), hdr + bytes.fromhex('379779bc') + i4(7),
+            hdr + bytes.fromhex('379779bc'), hdr + bytes(4) + i4(7), hdr + bytes.fromhex('b5757299'), hdr]
+
+
+def bool_flag_expected(d):
+    """what the LIBRARY makes of d under the one-constructor table of BOOL_FLAG_DECL, in the driver's output syntax (` ok <value> <consumed>`
+    without the leading blank / `err`; raises if the library raises)"""
+    import pytoniq_core.tl.generator as g
+    s = g.TlRegistrator().register(BOOL_FLAG_DECL)
+    assert s.id.hex() == '25dfca6a' and list(s.args) == ['mode', 'a', 'b']
+    val, n = g.TlSchemas([s]).deserialize(d)
+    ids = {'mode': 0, 'a': 3, 'b': 4}
+    assert val.get('@type') == 't.x'
+    parts = []
+    for k, v in val.items():
+        if k != '@type':
+            parts.append(f'{ids[k]}=' + (('T' if v else 'F') if isinstance(v, bool) else f'i{v}'))
+    return f' o1({",".join(parts)}) {n}'
 
 
 def lib_deserialize(W, d, auto):
